@@ -27,7 +27,11 @@ def eval_program(arg) -> dict:
     # as a C++ reference: the closure must hold a copy, not the caller's object
     need_ref = stream % 3 == 0
 
+    two_mts_provides = stream % 6 == 5 and not want_mc
+
     def accept(info):
+        if two_mts_provides and len(info['provides']) < 2:
+            return False
         if need_two:
             return len(info['requires']) >= 2
         if need_ref:
@@ -43,6 +47,9 @@ def eval_program(arg) -> dict:
         half = req[:max(1, len(req) // 2)]
         prog.enc['requires'] = {'sts': 'REMAINING', 'mts': half} if stream % 2 else \
             {'sts': half, 'mts': 'REMAINING'}
+    if two_mts_provides:
+        # several plain provides ports rerouted through the dispatcher in one shell
+        prog.enc['provides'] = {'sts': 'NONE', 'mts': 'ALL'}
     # cover every semantics/direction combination in every run, whatever the random draw
     if stream % 3 == 0:
         prog.enc['requires'] = {'sts': 'NONE', 'mts': 'ALL'}
@@ -53,6 +60,8 @@ def eval_program(arg) -> dict:
     out = {'violations': [], 'counts': {}}
     if need_ref:
         out['counts']['programs_queueing_reference_typed_arguments'] = 1
+    if two_mts_provides:
+        out['counts']['programs_with_several_mts_provides_ports'] = 1
     flavor = 'asan'
     if not progrun.build_or_report(prog, case, out, [flavor]):
         return progrun.finish_program(prog, out, case)
@@ -79,7 +88,8 @@ def main(tier: str) -> int:
     n = 9 if tier == 'quick' else 400
     run.require('mts_provides_in', 'mts_requires_out', 'sts_events', 'identity_checks',
                 'gate_tests', 'programs', 'static_asserts_on_accessor_types',
-                'programs_queueing_reference_typed_arguments')
+                'programs_queueing_reference_typed_arguments',
+                'programs_with_several_mts_provides_ports')
     scratch = run.scratch()
     progrun.drive(run, eval_program, [(run.seed, i, scratch, tier) for i in range(n)])
     return run.finish(
